@@ -550,7 +550,8 @@ def runNamedLine (sec : Nat) (acc : Report × NState) (l : Line) : Report × NSt
       r := r'
       let implOth := kvNat l.obs "oth" 999999999
       if implOth ≠ modelOth then r := r.mismatch sec l.idx s!"oth={modelOth}" s!"oth={implOth}"
-      if implOth ≠ monOth then
+      -- an observation without `oth=` is unparsable (already a mismatch above), not a verdict on isolation
+      if (kv? l.obs "oth").isSome ∧ implOth ≠ monOth then
         r := r.violation sec l.idx s!"a call on the breaker named {name} changed the window of a breaker with another name: others recorded {monOth} before, {implOth} after"
       if ¬ others.isEmpty then r := r.addCover "named-call-with-other-breakers"
       return (r, ns.set name st')
